@@ -142,6 +142,7 @@ type (
 		ackNoDelay bool         // send ack immediately for each incoming packet(testing purpose)
 		writeDelay bool         // delay kcp.flush() for Write() for bulk transfer
 		dup        int          // duplicate udp packets(testing purpose)
+		mtuOnWire  int32        // the datagram size limit last accepted by SetMtu, 0 if never set (atomic)
 
 		// notifications
 		die          chan struct{} // notify current session has Closed
@@ -553,6 +554,7 @@ func (s *UDPSession) SetWindowSize(sndwnd, rcvwnd int) {
 // SetMtu sets the maximum transmission unit(not including UDP header)
 func (s *UDPSession) SetMtu(mtu int) bool {
 	mtu = min(mtuLimit, mtu)
+	onWire := mtu
 
 	mtu -= s.headerSize
 	if aead, ok := s.block.(*aeadCrypt); ok {
@@ -562,6 +564,9 @@ func (s *UDPSession) SetMtu(mtu int) bool {
 	s.mu.Lock()
 	defer s.mu.Unlock()
 	ret := s.kcp.SetMtu(mtu) // kcp mtu is not including udp header
+	if ret == 0 {
+		atomic.StoreInt32(&s.mtuOnWire, int32(onWire))
+	}
 	return ret == 0
 }
 
@@ -778,6 +783,11 @@ func (s *UDPSession) postProcess() {
 
 			// parity
 			for k := range ecc {
+				// a parity packet is as long as the longest data packet of its group: after SetMtu has reduced
+				// the MTU, the parity of the group that was open at that moment would exceed it, so it is left out
+				if limit := atomic.LoadInt32(&s.mtuOnWire); limit > 0 && len(ecc[k]) > int(limit) {
+					continue
+				}
 				bts := defaultBufferPool.Get()[:len(ecc[k])]
 				copy(bts, ecc[k])
 				msg.Buffers = [][]byte{bts}
